@@ -41,6 +41,15 @@ ActionMutants ==
         k \in {"global*+rule", "rule+repeat*"}, p \in Paths(BaseGlobal) \ {<<>>}, v \in Replacements}
     \cup {[kind |-> k, mut |-> "root", doc |-> v] : k \in {"global*+rule", "rule+repeat*"}, v \in Replacements}
     \cup {[kind |-> k, mut |-> "none", doc |-> BaseGlobal] : k \in {"global*+rule", "rule+repeat*"}}
+    \* documents that meet other documents of the collection AFTER parsing: a mutated rule that a valid
+    \* correlation rule refers to (references are resolved), a mutated filter next to the rule it targets
+    \* (the filter is applied)
+    \cup {[kind |-> "rule*+corr", mut |-> "replace", doc |-> Replace(BaseRule, p, v)] : p \in Paths(BaseRule) \ {<<>>}, v \in Replacements}
+    \cup {[kind |-> "rule*+corr", mut |-> "delete", doc |-> Delete(BaseRule, p)] : p \in Paths(BaseRule) \ {<<>>}}
+    \cup {[kind |-> "rule*+corr", mut |-> "rekey", doc |-> Rekey(BaseRule, p, k)] : p \in {q \in Paths(BaseRule) : IsEntry(q)}, k \in Keys}
+    \cup {[kind |-> "rule+filter*", mut |-> "replace", doc |-> Replace(BaseFilter, p, v)] : p \in Paths(BaseFilter) \ {<<>>}, v \in Replacements}
+    \cup {[kind |-> "rule+filter*", mut |-> "delete", doc |-> Delete(BaseFilter, p)] : p \in Paths(BaseFilter) \ {<<>>}}
+    \cup {[kind |-> "rule+filter*", mut |-> "rekey", doc |-> Rekey(BaseFilter, p, k)] : p \in {q \in Paths(BaseFilter) : IsEntry(q)}, k \in Keys}
 \* random nested data
 RECURSIVE RandNode(_)
 RandNode(depth) ==
